@@ -306,6 +306,8 @@ class Executor(Evaluator):
         for a, o in zip(arrs, oarr):
             na = z3.Const(fresh_name('ext'), a.sort())
             facts.append(z3.ForAll([k], z3.Select(na, k) == z3.If(k < n, z3.Select(a, k), z3.Select(o, k - n)), patterns=[z3.Select(na, k)]))
+            facts.append(z3.ForAll([k], z3.Implies(k >= 0, z3.Select(na, n + k) == z3.Select(o, k)), patterns=[z3.Select(o, k)]))
+            facts.append(z3.ForAll([k], z3.Implies(k < n, z3.Select(na, k) == z3.Select(a, k)), patterns=[z3.Select(a, k)]))
             new.append(na)
         st.heap.list_set_arr(ety, lst.term, new)
         st.heap.list_set_len(lst.term, n + m)
